@@ -61,6 +61,10 @@ def graph_family(tier, seed):
              edges=[(0, 0, {}), (0, 1, {'formula': F}), (1, 2, {'formula': F, "x'": False}),
                     (2, 0, {"y'": 1, 'y': 0})], initial=[0, 1, 2]),
     ]
+    # mixed edges for the receptiveness assumption: some constrain the environment, some do not
+    base.append(dict(nodes={0: {}, 1: {}, 2: {}},
+                     edges=[(0, 1, {'x': True}), (0, 0, {}), (1, 0, {'x': False, "y'": 1}), (1, 1, {'x': True, 'y': 2}),
+                            (2, 0, {"y'": 0}), (2, 1, {'x': True})], initial=[0]))
     rnd = random.Random(seed + 77)
     n_rand = 6 if tier == 'quick' else 40
     for _ in range(n_rand):
@@ -166,6 +170,27 @@ def h_graph_to_logic(ctx):
     if not receptive:
         w.oblige('graph_to_logic.post: the other player\'s action is unconstrained',
                  w.valid_goal(w.term(aut.action[other])))
+    elif owner == 'sys':
+        # receptiveness assumption ("prevent env from blocking sys"): at a node
+        # with outgoing edges the environment keeps to the environment part of
+        # SOME outgoing edge's label (the edge formula and the assignments to
+        # environment variables); an edge without such a part leaves the
+        # environment unconstrained there; dead ends are unconstrained
+        def envpart(lab):
+            cs = list()
+            for k, v in lab.items():
+                if k == 'formula':
+                    cs.append(den.formula(v))
+                elif k in ENV_VARS:
+                    cs.append(assign(k, v))
+            return z3.And(*cs) if cs else z3.BoolVal(True)
+        want_env = list()
+        for u in gs['nodes']:
+            outs = [envpart(lab) for (a, v, lab) in edges if a == u]
+            if outs:
+                want_env.append(z3.Implies(N == lit(u), z3.Or(*outs)))
+        w.oblige('graph_to_logic.post (receptive): the environment\'s action is exactly "at each node with successors, the environment part of some outgoing edge\'s label holds"',
+                 w.valid_goal(w.term(aut.action['env']) == (z3.And(*want_env) if want_env else z3.BoolVal(True))))
     w.oblige('graph_to_logic.post: the other player\'s initial condition is unconstrained',
              w.valid_goal(w.term(aut.init[other])))
     ini = w.term(aut.init[owner])
